@@ -1,3 +1,3 @@
 SPECIFICATION Spec
-INVARIANT Emit
+INVARIANTS ExactDomain Emit
 CHECK_DEADLOCK FALSE
